@@ -458,6 +458,17 @@ def network_corr(ctx, corr, nets):
             corr.disagreements.append({'what': 'two recorded endpoints vs model/Network.v (net_run replayed on the recorded history)',
                                        'run': n.desc, 'kind': 'network',
                                        'note': 'an event\'s effects, a delivered frame or the final content of a link differs'})
+    # on how many of the recorded REAL histories are the premises of C01_network_exactly_once met (listening throughout, link
+    # drained, something with content delivered)?  counted inside Coq with the decidable form of the premise; the
+    # conclusion is recomputed on those pairs (a failure there would contradict the theorem, or mean the build is stale)
+    hdr = NET_HEADER.replace('Definition chk := chk_net.', 'Definition chk := exact_vacuous.')
+    met = sum(m - nf for (m, nf, idx) in run_coq_cases(shards, hdr, timeout=1200))
+    corr.count('network histories meeting the premises of C01_network_exactly_once on some stream', met)
+    hdr = NET_HEADER.replace('Definition chk := chk_net.', 'Definition chk := exact_conclusion.')
+    for si, (m, nf, idx) in enumerate(run_coq_cases(shards, hdr, timeout=1200)):
+        for i in idx:
+            corr.disagreements.append({'what': 'C01_network_exactly_once recomputed on a recorded history: conclusion fails',
+                                       'run': nets[si * SH + i].desc, 'kind': 'network'})
 
 
 def search(ctx, budget):
